@@ -286,6 +286,7 @@ pub fn exec_line(line: &str) -> String {
         "TOK" => exec_tok(&fields[1..]),
         "HIST" => run_history(fields[1], &fields[2..], |_, _| None).0.join(" ;; "),
         "REG" => exec_reg(&fields[1..]),
+        "ANG" => exec_ang(&fields[1..]),
         "PROJ" => match parse_proj(&unescape(fields.get(1).unwrap_or(&""))) {
             Ok(r) => format!("ok {}", escape(&r)),
             Err(e) => format!("err {}", err_class(&e)),
@@ -315,4 +316,20 @@ fn exec_reg(fields: &[&str]) -> String {
         Ok(t) => format!("ok {}", escape(&t)),
         Err(_) => "none".to_string(),
     })
+}
+
+fn exec_ang(fields: &[&str]) -> String {
+    let xs: Vec<f64> = fields[1].split(',').map(parse_f).collect();
+    let r = match (fields[0], xs.as_slice()) {
+        ("dms_to_dd", [d, m, s]) => angular::dms_to_dd(*d as i32, *m as u16, *s),
+        ("dm_to_dd", [d, m]) => angular::dm_to_dd(*d as i32, *m),
+        ("iso_dm_to_dd", [x]) => angular::iso_dm_to_dd(*x),
+        ("dd_to_iso_dm", [x]) => angular::dd_to_iso_dm(*x),
+        ("iso_dms_to_dd", [x]) => angular::iso_dms_to_dd(*x),
+        ("dd_to_iso_dms", [x]) => angular::dd_to_iso_dms(*x),
+        ("normalize_symmetric", [x]) => angular::normalize_symmetric(*x),
+        ("normalize_positive", [x]) => angular::normalize_positive(*x),
+        _ => return "bad-case".to_string(),
+    };
+    fbits(r)
 }
